@@ -230,9 +230,16 @@ def r13_3(ctx):
             E3 += q3.edges(lambda x: x['k'] == 'refine' and x['val'] == res and x['vname'] == 'Promote')
     after = q3.effects_after(E3)
     named = [x for x in after if cls_of(q3.E[x][2]) in ('temp_create_named', 'temp_create_named_default', 'content_write')]
-    out.append(inst('R13.3', 'Secondary x Promote x no write side', bool(E3) and not named,
-                    'without a write side promotion returns the hit and creates nothing' if E3 and not named else
-                    'promotion without a write side still creates or copies files'))
+    pops3 = [x for x in after if q3.E[x][2]['k'] == 'usercb' and callback_kind(ctx, q3, q3.E[x][2]) == 'populate']
+    oks3 = q3.terminals(lambda ev: ev['k'] == 'ret' and ev.get('variant') == 'Ok')
+    r3 = q3.reach_fwd([q3.E[x][1] for x in E3]) if E3 else set()
+    hit3 = {strip_view(values.mut_root(hit_kind(q3.E[e][2])[1])) for e in J3 if hit_kind(q3.E[e][2])[0] == 1}
+    rets3 = {strip_view(values.mut_root(q3.g.term[t]['payload'][0])) for t in oks3 if t in r3}
+    ok3 = bool(E3) and not named and not pops3 and rets3 == hit3
+    out.append(inst('R13.3', 'Secondary x Promote x no write side', ok3,
+                    'without a write side promotion returns the hit, calls no populate and creates nothing' if ok3 else
+                    'promotion without a write side %s' % ('regenerates the value with populate instead of returning the hit' if pops3 or rets3 != hit3
+                                                           else 'still creates or copies files')))
     return out
 
 
